@@ -1673,7 +1673,7 @@ pub fn run(args: &Args) -> Option<Report> {
         max_depth: 0,
         shard: args.shard,
         shard_depth: args.opt_u("sharddepth", 3) as usize,
-        wall_cap_s: args.opt_u("wall", if quick { 35 } else { 1500 }) as f64,
+        wall_cap_s: args.opt_u("wall", if quick { 35 } else { 600 }) as f64,
         exec_cap: args.opt_u("execs", u64::MAX / 2),
         prune: false,
         n_samples: 3,
